@@ -32,9 +32,11 @@ VARIABLES
     att, lastOK,            \* ghost: ids with a start attempt since they are enabled, outcome of the last one
     acc, accP, mem,         \* Ref: accepted definitions, accepted templates, template membership
     last,                   \* what the last step was (for the invariants)
+    taint,                  \* a crash has left a state that is neither before nor after its request (named deviation):
+                            \* from then on there is no accepted catalogue to compare with, Ref just follows what is visible
     n, crashes
 
-vars == <<T, P, A, X, up, att, lastOK, acc, accP, mem, last, n, crashes>>
+vars == <<T, P, A, X, up, att, lastOK, acc, accP, mem, last, taint, n, crashes>>
 
 Range(s) == { s[i] : i \in DOMAIN s }
 TaskIds == Range(TaskOrder)
@@ -356,7 +358,7 @@ Empty == [T |-> [t \in TaskIds |-> NoTask], P |-> [p \in TplIds |-> "none"], A |
 
 \* what the invariants need to know about the last step (kept small: it is part of the state)
 L(kind, ok, accepted, sfail, tplid, class) ==
-    [kind |-> kind, ok |-> ok, accepted |-> accepted, sfail |-> sfail, tplid |-> tplid, class |-> class]
+    [kind |-> kind, ok |-> ok, accepted |-> accepted, sfail |-> sfail, tplid |-> tplid, class |-> class, mems |-> {}]
 
 Init ==
     /\ T = Empty.T /\ P = Empty.P /\ A = {} /\ X = {}
@@ -364,6 +366,7 @@ Init ==
     /\ att = {} /\ lastOK = NoneOK
     /\ acc = Empty.T /\ accP = Empty.P /\ mem = {}
     /\ last = L("init", TRUE, TRUE, FALSE, "", "")
+    /\ taint = FALSE
     /\ n = 0 /\ crashes = 0
 
 Cur == Mach([T |-> T, P |-> P, A |-> A], X, att, lastOK)
@@ -374,15 +377,22 @@ Install(m) ==
     /\ att' = { t \in m.att : m.T[t] # NoTask /\ m.T[t].status = "enabled" }
     /\ lastOK' = m.lastOK
 
+\* after a crash, whatever is visible is what later requests are judged against; the memberships
+\* are the associations that are live (the task exists and names that template)
+Rebase(o) ==
+    /\ acc' = Cat(o.T) /\ accP' = o.P
+    /\ mem' = { a \in o.A : o.T[a[2]] # NoTask /\ o.T[a[2]].tpl = a[1] }
+
 \* a request that runs to completion and is answered
 Complete(q) ==
     LET h == Handle(Cur, q)
         r == RefStep(acc, accP, mem, q)
     IN /\ Install(h.m)
-       /\ acc' = r.acc /\ accP' = r.accP /\ mem' = r.mem
-       /\ last' = L("req", h.code < 300, r.accepted, h.m.sfail,
-                    IF q.op = "UpdateTpl" THEN (IF q.newid # "" THEN q.newid ELSE q.id) ELSE "", "")
-       /\ UNCHANGED <<up, crashes>>
+       /\ IF taint THEN Rebase(h.m) ELSE acc' = r.acc /\ accP' = r.accP /\ mem' = r.mem
+       /\ last' = [L("req", h.code < 300, r.accepted, h.m.sfail,
+                     IF q.op = "UpdateTpl" THEN (IF q.newid # "" THEN q.newid ELSE q.id) ELSE "", "")
+                   EXCEPT !.mems = IF q.op = "UpdateTpl" THEN { t \in TaskIds : <<q.id, t>> \in mem /\ acc[t] # NoTask } ELSE {}]
+       /\ UNCHANGED <<up, crashes, taint>>
 
 \* how the catalogue visible after a crash relates to the request that was in flight
 CrashClass(q, a0, ap0, mm0, o) ==
@@ -413,12 +423,6 @@ CrashClass(q, a0, ap0, mm0, o) ==
          THEN "template-update-partial"
     ELSE "other"
 
-\* after a crash, whatever is visible is what later requests are judged against; the memberships
-\* are the associations that are live (the task exists and names that template)
-Rebase(o) ==
-    /\ acc' = Cat(o.T) /\ accP' = o.P
-    /\ mem' = { a \in o.A : o.T[a[2]] # NoTask /\ o.T[a[2]].tpl = a[1] }
-
 \* a crash after the k-th transaction of request q, followed by a restart on the file
 CrashIn(q) ==
     /\ crashes < MaxCrash
@@ -426,8 +430,10 @@ CrashIn(q) ==
        \E k \in 1..Len(h.m.tr) :
           LET d == h.m.tr[k]
               o == Reopen(d)
+              c == IF taint THEN "tainted" ELSE CrashClass(q, acc, accP, mem, o)
           IN /\ Install(o)
-             /\ last' = L("crash", FALSE, FALSE, FALSE, "", CrashClass(q, acc, accP, mem, o))
+             /\ last' = L("crash", FALSE, FALSE, FALSE, "", c)
+             /\ taint' = (c # "atomic")
              /\ Rebase(o)
     /\ crashes' = crashes + 1
     /\ UNCHANGED up
@@ -436,12 +442,12 @@ CrashIn(q) ==
 Restart ==
     /\ Install(Reopen([T |-> T, P |-> P, A |-> A]))
     /\ last' = L("restart", TRUE, TRUE, FALSE, "", "")
-    /\ UNCHANGED <<up, acc, accP, mem, crashes>>
+    /\ UNCHANGED <<up, acc, accP, mem, crashes, taint>>
 
 SetEnv(b) ==
     /\ up' = b
     /\ last' = L("env", TRUE, TRUE, FALSE, "", "")
-    /\ UNCHANGED <<T, P, A, X, att, lastOK, acc, accP, mem, crashes>>
+    /\ UNCHANGED <<T, P, A, X, att, lastOK, acc, accP, mem, crashes, taint>>
 
 Next ==
     /\ n < MaxReq
@@ -491,10 +497,9 @@ NoOrphanAssociation ==
 \* CatalogueIsAccepted and RefStep, stated separately because it is the sentence of the property)
 TemplateAllOrNone ==
     last.kind = "req" /\ last.tplid # "" /\ last.accepted =>
-        \A t \in TaskIds : <<last.tplid, t>> \in mem =>
-            (T[t] # NoTask /\ T[t].script = P[last.tplid] /\ T[t].tpl = last.tplid)
+        \A t \in last.mems : T[t] # NoTask /\ T[t].script = P[last.tplid] /\ T[t].tpl = last.tplid
 
 \* a request in flight at a crash is visible or not - no third state (except the named classes)
-CrashAtomicOrKnown == last.kind = "crash" => last.class \in {"atomic"} \cup Known
+CrashAtomicOrKnown == last.kind = "crash" => last.class \in {"atomic", "tainted"} \cup Known
 CrashAtomic == last.kind = "crash" => last.class = "atomic"
 =============================================================================
